@@ -364,7 +364,10 @@ func runSegment(c *hx.Ctx) {
 	}
 
 	// budget: the Coq evaluation of one case costs about (#segments x packet length) list steps
-	const budget = 1500000
+	budget := 500000
+	if c.Tier == "thorough" {
+		budget = 1500000
+	}
 	randSpec := func() *segSpec {
 		s := &segSpec{V4: c.Chance(0.55), TCP: c.Chance(0.6), IHL: 5, Doff: 5}
 		if c.Chance(0.5) {
@@ -499,8 +502,12 @@ func runSegment(c *hx.Ctx) {
 		sweep++
 	}
 	// largest legal superpackets: 65535 bytes, gso 1460 and a segment size above 32767
-	for k := 0; k < 4; k++ {
-		s := &segSpec{V4: k%2 == 0, TCP: k < 2, IHL: 5, Doff: 5, GSO: []int{1460, 40000, 1460, 65000}[k], Flags: 0x18, ID: 0xfff0, Seq: 0xffffff00, Fill: "rand", PSeed: uint32(k)}
+	nmax := 2
+	if c.Tier == "thorough" {
+		nmax = 4
+	}
+	for k := 0; k < nmax; k++ {
+		s := &segSpec{V4: k%2 == 0, TCP: k == 0 || k == 3, IHL: 5, Doff: 5, GSO: []int{1460, 40000, 1460, 65000}[k], Flags: 0x18, ID: 0xfff0, Seq: 0xffffff00, Fill: "rand", PSeed: uint32(k)}
 		s.PayLen = 65535 - s.hl()
 		addValidPipe("sweep-max", s, segBuild(c, s))
 		sweep++
